@@ -6,4 +6,5 @@ pub mod exec;
 pub mod gen;
 pub mod props;
 pub mod q;
+pub mod refs;
 pub mod runner;
